@@ -106,3 +106,11 @@ fn c17_payload_decoders_bounded() {
         assert!(st[1].id.as_u16() == u16::from_be_bytes([p[6], p[7]]) && st[1].value == u32::from_be_bytes([p[8], p[9], p[10], p[11]]));
     }
 }
+
+/// the assumption used by the chunking lemma: no frames, no fingerprint
+#[kani::proof]
+#[kani::unwind(4)]
+fn c17_no_frames_no_fingerprint() {
+    let frames: Vec<Http2Frame> = Vec::new();
+    assert!(extract_akamai_fingerprint(&frames).is_none());
+}
